@@ -4,7 +4,9 @@ Over the link model (every action sequence, every window and threshold) for the 
 statements; over the endpoint model (every state, every frame) for "no cross-talk"; over the pair of
 endpoint models for the running phase; and over EVERY history of one endpoint model with ANY peer
 (wind-down, faults and misbehaving peers included) for receiver and sender integrity
-(`receiver_integrity_every_history`, `sender_integrity_every_history`, …).
+(`receiver_integrity_every_history`, `sender_integrity_every_history`, …); and over EVERY history of TWO
+endpoint models joined by FIFO wires, connection end and faults included
+(`pair_reads_are_prefix_of_peer_writes_every_history`, `Model/PairAll.lean`).
 -/
 import Penguin.Model.Link
 import Penguin.Model.Mux
@@ -14,6 +16,7 @@ import Penguin.Lemmas.MuxStep
 import Penguin.Lemmas.PairHarness
 import Penguin.Lemmas.PairBytes
 import Penguin.Lemmas.MuxIntegritySrc
+import Penguin.Lemmas.PairAllRun
 
 namespace Penguin.C02
 open Penguin Penguin.Link
@@ -378,6 +381,97 @@ example : chunks (settleLog (opStep (runOps { opts := hcfg } (hTwo.take 6)) (fr 
     chunks (settleLog (opStep (runOps { opts := hcfg } (hTwo.take 6)) (fr (.push 5 [3]))).1) 0 = [3] ∧
     str (runOps { opts := hcfg } (hTwo.take 6)) 1 = [9] ∧
     (0, [3]) ∈ acceptedInto (runOps { opts := hcfg } (hTwo.take 6)) (.push 5 [3]) := by decide
+
+/-! ### Two endpoints, EVERY history: what a reader reads is a prefix of what the peer wrote
+
+`Penguin.PairAll` (`Model/PairAll.lean`) joins two endpoint models by two FIFO wires at the stimulus level,
+with nothing left out: a stimulus at either side is ANY stimulus of the endpoint model except a delivery
+(`call op`: `open`, `accept`, `write`, `read`, `shutdown`, `dropStream`, the datagram and bind calls, `dropMux`,
+`sinkRoom`, `cancelOpen`), the delivery of the oldest message on the wire to that side (`deliver`; a delivered
+Close ends the source after it), or a transport fault (`cut`: the side's source fails or ends, what was on
+the wire to it is lost, the wire stays closed).  Each side keeps the ghost record of the one-endpoint theorems
+above (`Mux.Ghost` via `Mux.stepG`).  Flow ids come from two scripts that together are duplicate-free and do
+not run out (`PairAll.Cfg`: no id is ever drawn twice; a stimulus that exhausts the acting side's script is
+not enabled): the model's reading of "random 32-bit ids do not collide" — weaker than `Pair.Cfg` (no
+hypothesis on windows, none on zero ids).  The proof composes sender integrity at the writer,
+FIFO wires that lose only a suffix, "acceptance is prefix-closed per flow id" at the reader (new: a `Push x`
+that is not accepted into the object is never followed by one that is, because `x` is established at most
+once and never after a `Push x` was processed — an invariant of the pair, `Lemmas/PairAll*.lean`), and
+receiver integrity at the reader. -/
+
+open Penguin.Mux Penguin.PairAll in
+/-- In every reachable state of the pair — after EVERY history of application calls, deliveries and
+    transport faults at both sides, whatever happened: the connection ended in any state, a `Multiplexor`
+    was dropped with data queued, the source failed in the middle of a burst, streams were reset, handles
+    dropped — for every flow id `x` and BOTH directions: the bytes one side's application has read from
+    a stream object carrying `x` (`Ghost.returned`, from the results of its `read` calls) are a PREFIX of
+    the bytes the other side's application successfully wrote on flow `x` (`Ghost.wrote`, from the results of
+    its `write` calls; `wroteOn x` = the payloads of the writes whose stream carries `x`, concatenated).
+    Nothing is read that was not written, nothing out of order, nothing twice, nothing of another flow. -/
+theorem pair_reads_are_prefix_of_peer_writes_every_history {ra rb : List Nat} (c : Cfg ra rb) (oa ob : Opts)
+    (l : List (PairAll.Side × Stim)) (x : Nat) :
+    let p := PairAll.run (PairAll.init oa ob ra rb) l
+    (∀ j o, p.b.objs[j]? = some o → o.fid = x → chunks p.gb.returned j <+: wroteOn x p.ga.wrote) ∧
+    (∀ i o, p.a.objs[i]? = some o → o.fid = x → chunks p.ga.returned i <+: wroteOn x p.gb.wrote) :=
+  ⟨fun j o hj hx => reads_prefix_of_writes c oa ob l x j o hj hx,
+   fun i o hi hx => reads_prefix_of_writes_rev c oa ob l x i o hi hx⟩
+
+open Penguin.Mux Penguin.PairAll in
+/-- The frame-level link that was missing between the one-endpoint theorems: in every reachable state of the
+    pair, the payloads of the `Push` frames `process_frame` accepted into a stream object of `b` carrying `x`
+    are a PREFIX (not merely a subsequence) of the payloads of the `Push x` frames `a`'s sink has taken, in
+    order — once a `Push x` is not accepted (no slot, receiver closed, window overrun, wind-down, lost with
+    the wire), no later `Push x` is accepted into any object carrying `x`. -/
+theorem pair_accepted_pushes_are_prefix_of_peer_pushes_every_history {ra rb : List Nat} (c : Cfg ra rb) (oa ob : Opts)
+    (l : List (PairAll.Side × Stim)) (x j : Nat) (o : Obj)
+    (hj : (PairAll.run (PairAll.init oa ob ra rb) l).b.objs[j]? = some o) (hx : o.fid = x) :
+    Log.dataOf (PairAll.run (PairAll.init oa ob ra rb) l).gb.accepted j <+:
+      pX x (wireMsgs (PairAll.run (PairAll.init oa ob ra rb) l).ga.evs) :=
+  accepted_prefix_of_sent c oa ob l x j o hj hx
+
+/-! Non-vacuity (windows 2, threshold 1; scripts `[7, 8]` and `[9, 10]`; `a` opens flow 7, `b` accepts it). -/
+private def qcfg : Mux.Opts := { rwnd := 2, threshold := 1 }
+example : PairAll.Cfg [7, 8] [9, 10] := ⟨by decide, by decide, by decide⟩
+open Penguin.PairAll in
+private def qopen : List (PairAll.Side × Stim) :=
+  [(.A, .call (.open 1 [104] 80)), (.B, .deliver), (.B, .call .accept), (.A, .deliver)]
+
+open Penguin.PairAll in
+/-- `a` writes two frames, the first is delivered, then the wire to `b` is cut (the source fails): `b` reads
+    the first frame — a strict prefix of what was written — and then end-of-stream. -/
+private def qCut : List (PairAll.Side × Stim) :=
+  qopen ++ [(.A, .call (.write 0 [1, 2])), (.A, .call (.write 0 [3])), (.B, .deliver), (.B, .cut false),
+            (.B, .call (.read 0 9))]
+open Penguin.Mux Penguin.PairAll in
+example : let p := PairAll.run (PairAll.init qcfg qcfg [7, 8] [9, 10]) qCut
+    (p.b.objs.map (·.fid) = [7] ∧ p.b.dead = true ∧ p.abOpen = false ∧
+     chunks p.gb.returned 0 = [1, 2] ∧ wroteOn 7 p.ga.wrote = [1, 2, 3] ∧
+     (applyOp p.b (.read 0 9)).2.1 = .eof) := by decide
+
+open Penguin.PairAll in
+/-- `a` drops its `Multiplexor` with two frames queued behind a sink that takes nothing; when the sink takes
+    again they are sent, then the Close; everything arrives, `b` reads it all and then end-of-stream. -/
+private def qDrop : List (PairAll.Side × Stim) :=
+  qopen ++ [(.A, .call (.sinkRoom (some 0))), (.A, .call (.write 0 [1, 2])), (.A, .call (.write 0 [3])),
+            (.A, .call .dropMux), (.A, .call (.sinkRoom none)), (.B, .deliver), (.B, .deliver), (.B, .deliver),
+            (.B, .call (.read 0 9)), (.B, .call (.read 0 9))]
+open Penguin.Mux Penguin.PairAll in
+example : let p := PairAll.run (PairAll.init qcfg qcfg [7, 8] [9, 10]) qDrop
+    (p.a.muxAlive = false ∧ p.b.dead = true ∧ chunks p.gb.returned 0 = [1, 2, 3] ∧ wroteOn 7 p.ga.wrote = [1, 2, 3] ∧
+     (applyOp p.b (.read 0 9)).2.1 = .eof) := by decide
+
+open Penguin.PairAll in
+/-- A frame that is invalid in the middle of the run: `b` drops its handle while `a` goes on writing; `a`'s
+    next `Push` arrives for a flow `b` no longer has and is answered by a `Reset` (it is written, never read);
+    after the `Reset` `a`'s writes fail. -/
+private def qStale : List (PairAll.Side × Stim) :=
+  qopen ++ [(.A, .call (.write 0 [1, 2])), (.B, .deliver), (.B, .call (.read 0 9)), (.A, .deliver),
+            (.B, .call (.dropStream 0)), (.A, .call (.write 0 [3])), (.B, .deliver), (.A, .deliver), (.A, .deliver),
+            (.A, .call (.write 0 [4]))]
+open Penguin.Mux Penguin.PairAll in
+example : let p := PairAll.run (PairAll.init qcfg qcfg [7, 8] [9, 10]) qStale
+    (p.b.flows = [] ∧ p.a.flows = [] ∧ chunks p.gb.returned 0 = [1, 2] ∧ wroteOn 7 p.ga.wrote = [1, 2, 3] ∧
+     (applyOp p.a (.write 0 [5])).2.1 = .brokenPipe) := by decide
 
 /-! Non-vacuity -/
 example : (run (init 2 2) [.write [1, 2, 3], .deliver, .read 2, .write [4], .deliver, .read 9, .read 9]).delivered
